@@ -156,7 +156,9 @@ func GenCodecFile(r *R, idx int) *ir.File {
 	msg("BytesAll",
 		ann(fld("b_base64", "bytes"), ir.Ann{BytesEnc: "BASE64"}), ann(fld("b_base64_raw", "bytes"), ir.Ann{BytesEnc: "BASE64_RAW"}),
 		ann(fld("b_base64url", "bytes"), ir.Ann{BytesEnc: "BASE64URL"}), ann(fld("b_base64url_raw", "bytes"), ir.Ann{BytesEnc: "BASE64URL_RAW"}),
-		ann(fld("b_hex", "bytes"), ir.Ann{BytesEnc: "HEX"}), fld("plain_b", "bytes"))
+		ann(fld("b_hex", "bytes"), ir.Ann{BytesEnc: "HEX"}), fld("plain_b", "bytes"),
+		// proto3 `optional` bytes (they sit in a synthetic oneof) keep their encoding like any other
+		ann(card(fld("b_opt_hex", "bytes"), "optional"), ir.Ann{BytesEnc: "HEX"}), ann(card(fld("b_opt_url", "bytes"), "optional"), ir.Ann{BytesEnc: "BASE64URL_RAW"}))
 	msg("Int64All",
 		ann(fld("big_s", "int64"), ir.Ann{Int64Enc: "NUMBER"}), ann(fld("big_u", "uint64"), ir.Ann{Int64Enc: "NUMBER"}),
 		ann(card(fld("bigs", "sint64"), "repeated"), ir.Ann{Int64Enc: "NUMBER"}), ann(fld("as_str", "fixed64"), ir.Ann{Int64Enc: "STRING"}), fld("plain_i", "int64"))
